@@ -177,6 +177,11 @@ def run(rep, tier, seed):
         elif k.startswith('import_') or k.startswith('roundtrip_'):
             check_import(oracle, k, line, o)
 
+    manifest_replay_segment(rep, tier, seed)
+    # CURRENT must name a complete MANIFEST also when installing a version fails (every MANIFEST append/fsync and
+    # directory fsync fails once; a fault-free reopen must then succeed)
+    import k3check
+    k3check.failed_install_segment(rep, tier, seed, label='current-vs-manifest-after-failed-install')
     rep.cov['rule'] = ('stage 1: varint32/64 write/size/read at every 7-bit boundary, truncated and over-long encodings; file names from '
                        'every constructor at boundary numbers, mutated and overflowing numbers; user/internal key comparisons, separators, '
                        'successors, lookup keys; batches built through the C API; version edits built through the C API (each field '
@@ -203,6 +208,12 @@ def check_import(oracle, k, line, o):
     else:
         exp = 'fail' if e is None else hx(G.encode_edit(e))
     oracle(o == exp, 'independent-decoder', line, o, exp)
+
+def manifest_replay_segment(rep, tier, seed):
+    """Replaying a MANIFEST reproduces the layout: clean reopen cycles (incl. MANIFEST reuse growing past a 32 KiB block
+    boundary, data in the deepest level) must succeed and report the same layout as before the close."""
+    import k2check, histgen
+    k2check.run_k2(rep, 'C17', tier, seed, 'c14', 2 if tier == 'quick' else 40, 60, extra_histories=histgen.corpus_histories()[-3:])
 
 def replay(rep, path):
     r = json.load(open(path))
